@@ -70,6 +70,8 @@ class System:
         # windows that differ by parts per million: the spread is a small difference of large numbers, so the
         # reference is compared at a tolerance that allows for the conditioning (mean/std ~ 1e6) of that case
         self.rtol = root.get("rtol", RTOL)
+        if root.get("rows"):                # explicit windows instead of named shapes
+            self.curves = [list(map(float, r)) for r in root["rows"]]
         self.W = len(self.curves)
         if root.get("big"):
             # many windows: manual rejections / re-acceptances in the middle of the record only
